@@ -687,6 +687,79 @@ fn probe_datum(schema: &Schema, kind: &'static str, len: u64, isz: u64, per_item
     Probe { kind, len, isz, supplied, out }
 }
 
+/// a `fixed` of size n: the size comes from the schema, the datum is exactly n bytes
+fn probe_fixed(kind: &'static str, n: u64) -> Probe {
+    let supplied = n <= SUPPLY_MAX;
+    let d: Vec<u8> = if supplied { vec![0x64; n as usize] } else { vec![] };
+    let schema = match Schema::parse_str(&format!(r#"{{"type":"fixed","name":"f","size":{n}}}"#)) {
+        Ok(s) => s,
+        Err(_) => return Probe { kind, len: n, isz: 1, supplied, out: "wrong" },
+    };
+    let out = if kind == "deser-fixed" {
+        let r = guarded(std::panic::AssertUnwindSafe(|| {
+            GenericDatumReader::builder(&schema)
+                .human_readable(false)
+                .build()
+                .and_then(|r| r.read_deser::<serde_bytes::ByteBuf>(&mut &d[..]))
+        }));
+        classify(r, |b| b.len() as u64 == n)
+    } else {
+        let r = guarded(std::panic::AssertUnwindSafe(|| {
+            GenericDatumReader::builder(&schema).human_readable(false).build().and_then(|r| r.read_value(&mut &d[..]))
+        }));
+        classify(r, |v| matches!(v, Value::Fixed(sz, b) if *sz as u64 == n && b.len() as u64 == n))
+    };
+    Probe { kind, len: n, isz: 1, supplied, out }
+}
+
+/// the schema-aware deserializer bounds the declared block COUNT of arrays and maps by the limit (items may be
+/// zero bytes wide): array<null> -> Vec<()>, array<int> -> Vec<i32>, map<int> -> HashMap<String, i32>
+fn probe_deser_coll(kind: &'static str, count: u64) -> Probe {
+    let supplied = kind == "deser-array-null" || count <= SUPPLY_MAX;
+    let mut d = Vec::new();
+    zigzag_varint(count, &mut d);
+    if supplied {
+        let per: &[u8] = match kind {
+            "deser-array-null" => &[],
+            "deser-array" => &[0],
+            _ => &[0, 0],
+        };
+        for _ in 0..count {
+            d.extend_from_slice(per);
+        }
+        if count > 0 {
+            d.push(0);
+        }
+    }
+    let out = match kind {
+        "deser-array-null" => {
+            let schema = Schema::array(Schema::Null).build();
+            let r = guarded(std::panic::AssertUnwindSafe(|| {
+                GenericDatumReader::builder(&schema).human_readable(false).build().and_then(|r| r.read_deser::<Vec<()>>(&mut &d[..]))
+            }));
+            classify(r, |v| v.len() as u64 == count)
+        }
+        "deser-array" => {
+            let schema = Schema::array(Schema::Int).build();
+            let r = guarded(std::panic::AssertUnwindSafe(|| {
+                GenericDatumReader::builder(&schema).human_readable(false).build().and_then(|r| r.read_deser::<Vec<i32>>(&mut &d[..]))
+            }));
+            classify(r, |v| v.len() as u64 == count)
+        }
+        _ => {
+            let schema = Schema::map(Schema::Int).build();
+            let r = guarded(std::panic::AssertUnwindSafe(|| {
+                GenericDatumReader::builder(&schema)
+                    .human_readable(false)
+                    .build()
+                    .and_then(|r| r.read_deser::<std::collections::HashMap<String, i32>>(&mut &d[..]))
+            }));
+            classify(r, |m| (count == 0 && m.is_empty()) || (count > 0 && m.len() == 1))
+        }
+    };
+    Probe { kind, len: count, isz: 1, supplied, out }
+}
+
 fn probe_block(b: u64) -> Probe {
     let supplied = b <= SUPPLY_MAX;
     let (schema, datum) = if b == 0 { ("\"null\"", vec![]) } else { ("\"bytes\"", if supplied { bytes_datum_of_size(b) } else { vec![] }) };
@@ -794,6 +867,13 @@ fn cmd_limit1(limit: u64, mode: &str, big: bool) -> i32 {
             probes.push(probe_datum(&Schema::Bytes, "bytes", len, 1, &[0x61], false));
             probes.push(probe_datum(&Schema::String, "string", len, 1, &[0x61], false));
         }
+        for len in [1u64 << 20, above_default] {
+            probes.push(probe_fixed("fixed", len));
+            probes.push(probe_fixed("deser-fixed", len));
+            probes.push(probe_deser_coll("deser-array", len));
+            probes.push(probe_deser_coll("deser-map", len));
+        }
+        probes.push(probe_deser_coll("deser-array-null", 1 << 20));
         probes.push(probe_datum(&Schema::array(Schema::Int).build(), "array", (1 << 20) / vsz, vsz, &[0], true));
         probes.push(probe_block(1 << 20));
         probes.push(probe_codec("deflate", Codec::Deflate(Default::default()), 1 << 20));
@@ -805,6 +885,14 @@ fn cmd_limit1(limit: u64, mode: &str, big: bool) -> i32 {
             probes.push(probe_datum(&Schema::String, "deser-string", len, 1, &[0x61], false));
             probes.push(probe_datum(&Schema::Bytes, "deser-bytes", len, 1, &[0x61], false));
             probes.push(probe_snappy_declared(len));
+            probes.push(probe_fixed("fixed", len));
+            probes.push(probe_fixed("deser-fixed", len));
+            probes.push(probe_deser_coll("deser-array", len));
+            probes.push(probe_deser_coll("deser-map", len));
+            if !huge {
+                // count iterations of a zero-width item: only where the count is small enough to iterate
+                probes.push(probe_deser_coll("deser-array-null", len));
+            }
             // a container header declares lengths ("avro.schema" is 11 bytes, two map entries) above tiny limits
             if (!huge || big) && l >= 4096 {
                 probes.push(probe_block(len));
